@@ -71,11 +71,17 @@ class Lock:
 
 
 def coq_sources():
+    """every .v file of the development, except work in progress listed in coq/.wip (an uncommitted, optional file: one
+    relative path per line; used while a proof file is being written so that the shared build does not wait for it)"""
+    wip = set()
+    wp = os.path.join(COQ, ".wip")
+    if os.path.exists(wp):
+        wip = {l.strip() for l in open(wp) if l.strip()}
     out = []
     for d in ("Model", "Sem", "Proofs", "Props", "Views"):
         p = os.path.join(COQ, d)
         if os.path.isdir(p):
-            out += [os.path.join(d, f) for f in sorted(os.listdir(p)) if f.endswith(".v")]
+            out += [os.path.join(d, f) for f in sorted(os.listdir(p)) if f.endswith(".v") and os.path.join(d, f) not in wip]
     return out
 
 
@@ -334,3 +340,32 @@ class Check:
         print(f"{self.prop}: tier={self.tier} seed={self.seed} obligations={n_ok}/{n_obl} evaluations={self.evaluations} "
               f"distinct={len(self.nontrivial)} violations={len(seen)} known={sum(self.known_hits.values())} wall={wall:.1f}s")
         return 1 if seen else 0
+
+
+def run_repro(fid, timeout=900):
+    """findings/repro.py <id> against /repo's working tree, in a fresh process -> None (passes) | failure text"""
+    p = subprocess.run([PY, os.path.join(VERIF, "findings", "repro.py"), fid], capture_output=True, text=True,
+                       env=dict(child_env(), J2M_REPO=REPO), timeout=timeout)
+    line = [l for l in p.stdout.splitlines() if l.startswith(fid + " ")]
+    if p.returncode == 0 and line and line[0].split()[1] == "OK":
+        return None
+    return (line[0] if line else (p.stdout + p.stderr)[-400:]).strip()
+
+
+def run_fixed_repros(chk):
+    import ast as _ast
+    have = {n.name for n in _ast.parse(open(os.path.join(VERIF, "findings", "repro.py")).read()).body if isinstance(n, _ast.FunctionDef)}
+    ids = sorted({f["id"] for f in chk.known if f.get("status") == "fixed" and f["id"] in have},
+                 key=lambda k: int(re.sub(r"\D", "", k)))
+    ran = []
+    for fid in ids:
+        try:
+            why = run_repro(fid)
+        except subprocess.TimeoutExpired:
+            why = "timeout"
+        chk.count(key=("repro", fid))
+        ran.append(fid)
+        if why:
+            chk.fail("oracle", {"finding": fid, "replay_cmd": f"PYTHONPATH=/repo /venv/bin/python findings/repro.py {fid}"},
+                     f"the repaired defect {fid} is back: {why}")
+    chk.notes["fixed_findings_replayed"] = ran
